@@ -13,8 +13,9 @@ A call is a script of steps
 runner reads the text through the pooled buffer it owns on every step, as `Runtext` aliases it).
 Which pooled runner/buffer `sync.Pool` hands out is chosen by the schedule.
 
-The runner, buffer and parse operations are parameters (`Sem`); `Props/C11` states what is assumed of
-them (the statements `Props/C12` proves for the concrete models).
+The runner, buffer and parse operations are parameters (`Sem`); `Lemmas/Interleave` states what is
+assumed of them (`Laws`); `Model/RunnerSem` is the instance built from the C12 models and
+`Lemmas/RunnerSem.runnerLaws` proves the laws for it.
 -/
 import RegexVerif.Model.LRU
 
